@@ -7,39 +7,6 @@ func rs(h string, args ...int64) RunSpec { return RunSpec{Harness: h, Args: args
 func propSpecs() map[string]*PropSpec {
 	m := map[string]*PropSpec{}
 	add := func(p *PropSpec) { m[p.ID] = p }
-	add(&PropSpec{
-		ID: "C09", Title: "lexer partitions the source into the documented tokens",
-		Quick: []RunSpec{rs("H_C09", 0, 0), rs("H_C09", 1, 0), rs("H_C09", 2, 0), rs("H_C09", 3, 1), rs("H_C09", 3, 2), rs("H_C09", 3, 3), rs("H_C09", 3, 4)},
-		Thorough: []RunSpec{rs("H_C09", 0, 0), rs("H_C09", 1, 0), rs("H_C09", 2, 0), rs("H_C09", 3, 0),
-			rs("H_C09", 5, 1), rs("H_C09", 5, 2), rs("H_C09", 5, 3), rs("H_C09", 5, 4), rs("H_C09", 4, 6)},
-		Covers: []string{"has-token", "two-tokens", "number", "string", "quoted-ident", "error-token", "ident"},
-		Bounds: map[string]string{"quick": "all byte strings of length <= 2 (full byte range); length <= 3 over the focused alphabets numbers/strings/names/operators",
-			"thorough": "all byte strings of length <= 3 (full byte range); length <= 5 over the focused alphabets; length <= 4 over the layout alphabet"},
-		Outside: []string{"sources longer than the bound", "BasicLit.Float64 and Uint64 of float literals (floating point)", "string values containing invalid UTF-8 together with an escape (don't-care)"},
-		Stubs:   []string{"unicode.IsSpace -> models.IsSpace (validated against the real table)", "utf8 decode/encode: engine model of the Go specification", "strings.{TrimLeft,ReplaceAll,ContainsAny} -> models", "strconv.{ParseUint,FormatUint} -> models", "fmt.Sprintf: error texts opaque"},
-	})
-	add(&PropSpec{
-		ID: "C12", Title: "scanning, parsing and compiling are total", OwnsPanic: true,
-		Quick: []RunSpec{rs("H_C12", 1, 0), rs("H_C12", 2, 0), rs("H_C12", 3, 5), rs("H_C12", 3, 1),
-			rs("H_C12tok", 1, 2), rs("H_C12tok", 2, 2), rs("H_C12tok", 3, 2), rs("H_C12tok", 4, 2), rs("H_C12tok", 5, 4), rs("H_C12tok", 6, 4)},
-		Thorough: []RunSpec{rs("H_C12", 1, 0), rs("H_C12", 2, 0), rs("H_C12", 3, 0), rs("H_C12", 5, 5), rs("H_C12", 5, 1), rs("H_C12", 5, 2), rs("H_C12", 5, 3),
-			rs("H_C12tok", 1, 0), rs("H_C12tok", 2, 0), rs("H_C12tok", 3, 0), rs("H_C12tok", 4, 2), rs("H_C12tok", 5, 2), rs("H_C12tok", 6, 4), rs("H_C12tok", 7, 4)},
-		Covers: []string{"has-token", "parsed", "parse-error", "compiled", "compile-error", "walked", "has-semicolon-token"},
-		Bounds: map[string]string{"quick": "all byte strings of length <= 2, length <= 3 over two focused alphabets; all token sequences of length <= 4 over the 55-lexeme vocabulary and <= 6 over the 33-lexeme vocabulary; 5 parameter maps",
-			"thorough": "all byte strings of length <= 3, <= 5 over focused alphabets; all token sequences <= 3 over the full vocabulary, <= 5 over 55 lexemes, <= 7 over 33 lexemes"},
-		Outside: []string{"inputs beyond the bounds", "the wall-clock clause (within seconds for KiB inputs): a complexity claim, not decided by bounded symbolic execution", "step budget per path 300000 SSA instructions: exhaustion is replayed natively under a 5 s watchdog"},
-		Stubs:   []string{"parser.Scan summarised on token-slot sources from tables derived on this run from the real Scan (one-token locality validated on all lexeme pairs)"},
-	})
-	add(&PropSpec{
-		ID: "C15", Title: "statement splitting agrees with the lexer and loses nothing",
-		Quick:    []RunSpec{rs("H_C15", 0, 0), rs("H_C15", 1, 0), rs("H_C15", 2, 0), rs("H_C15", 4, 5)},
-		Thorough: []RunSpec{rs("H_C15", 0, 0), rs("H_C15", 1, 0), rs("H_C15", 2, 0), rs("H_C15", 3, 0), rs("H_C15", 6, 5)},
-		Covers:   []string{"has-semicolon-token", "semicolon-inside-token-or-comment", "parsed", "two-statements"},
-		Bounds: map[string]string{"quick": "all byte strings of length <= 2 (full byte range); length <= 4 over the alphabet ; ' \" ` / \\ newline a 1 = space",
-			"thorough": "all byte strings of length <= 3 (full byte range); length <= 6 over the splitting alphabet"},
-		Outside: []string{"sources longer than the bound", "the command-line consumer (C16)"},
-		Stubs:   []string{"unicode.IsSpace -> models.IsSpace", "utf8 decode: engine model", "strings.{TrimLeft,ReplaceAll} -> models"},
-	})
 	seeds := func(h string, n int64) []RunSpec {
 		var r []RunSpec
 		for i := int64(0); i < 12; i++ {
@@ -56,6 +23,41 @@ func propSpecs() map[string]*PropSpec {
 	}
 	tokStub := "parser.Scan summarised on token-slot sources from tables derived on this run from the real Scan (78 lexemes; one-token locality validated on all lexeme pairs); native replays use the real Scan"
 	add(&PropSpec{
+		ID: "C09", Title: "lexer partitions the source into the documented tokens",
+		Quick: []RunSpec{rs("H_C09", 0, 0), rs("H_C09", 1, 0), rs("H_C09", 2, 0), rs("H_C09", 3, 0), rs("H_C09", 3, 1), rs("H_C09", 6, 2), rs("H_C09", 5, 3), rs("H_C09", 4, 4), rs("H_C09", 4, 6)},
+		Thorough: []RunSpec{rs("H_C09", 0, 0), rs("H_C09", 1, 0), rs("H_C09", 2, 0), rs("H_C09", 3, 0), rs("H_C09", 4, 0),
+			rs("H_C09", 4, 1), rs("H_C09", 8, 2), rs("H_C09", 7, 3), rs("H_C09", 6, 4), rs("H_C09", 5, 6)},
+		Covers: []string{"has-token", "two-tokens", "number", "string", "quoted-ident", "error-token", "ident"},
+		Bounds: map[string]string{"quick": "all byte strings of length <= 3 (full byte range); focused alphabets: numbers <= 3, strings/escapes <= 6, names/backticks/comments <= 5, operators <= 4, layout and odd bytes <= 4",
+			"thorough": "all byte strings of length <= 4 (full byte range); numbers <= 4, strings <= 8, names <= 7, operators <= 6, layout <= 5"},
+		Outside: []string{"sources longer than the bound", "BasicLit.Float64 and Uint64 of float literals (floating point)", "string values containing invalid UTF-8 together with an escape (don't-care)"},
+		Stubs:   []string{"unicode.IsSpace -> models.IsSpace (validated against the real table)", "utf8 decode/encode: engine model of the Go specification", "strings.{TrimLeft,ReplaceAll,ContainsAny} -> models", "strconv.{ParseUint,FormatUint} -> models", "fmt.Sprintf: error texts opaque"},
+	})
+	add(&PropSpec{
+		ID: "C12", Title: "scanning, parsing and compiling are total", OwnsPanic: true,
+		Quick: []RunSpec{rs("H_C12", 1, 0), rs("H_C12", 2, 0), rs("H_C12", 3, 0), rs("H_C12", 4, 7), rs("H_C12", 3, 1),
+			rs("H_C12tok", 1, 2), rs("H_C12tok", 2, 2), rs("H_C12tok", 3, 2), rs("H_C12tok", 4, 2), rs("H_C12tok", 5, 4), rs("H_C12tok", 6, 4),
+			rs("H_C12names", 0), rs("H_C12names", 1), rs("H_C12names", 2), rs("H_C12names", 3), rs("H_C12names", 4), rs("H_C12names", 5), rs("H_C12names", 6), rs("H_C12names", 7)},
+		Thorough: []RunSpec{rs("H_C12", 1, 0), rs("H_C12", 2, 0), rs("H_C12", 3, 0), rs("H_C12", 5, 5), rs("H_C12", 5, 1), rs("H_C12", 5, 2), rs("H_C12", 5, 3),
+			rs("H_C12tok", 1, 0), rs("H_C12tok", 2, 0), rs("H_C12tok", 3, 0), rs("H_C12tok", 4, 2), rs("H_C12tok", 5, 2), rs("H_C12tok", 6, 4), rs("H_C12tok", 7, 4),
+			rs("H_C12names", 0), rs("H_C12names", 1), rs("H_C12names", 2), rs("H_C12names", 3), rs("H_C12names", 4), rs("H_C12names", 5), rs("H_C12names", 6), rs("H_C12names", 7)},
+		Covers: []string{"has-token", "parsed", "parse-error", "compiled", "compile-error", "walked", "has-semicolon-token"},
+		Bounds: map[string]string{"quick": "all byte strings of length <= 3, length <= 4 over the bracket/semicolon alphabet; 8 name-collision shapes with arbitrary tokens in the name slots; all token sequences of length <= 4 over the 55-lexeme vocabulary and <= 6 over the 33-lexeme vocabulary; 5 parameter maps",
+			"thorough": "all byte strings of length <= 3, <= 5 over focused alphabets; all token sequences <= 3 over the full vocabulary, <= 5 over 55 lexemes, <= 7 over 33 lexemes"},
+		Outside: []string{"inputs beyond the bounds", "the wall-clock clause (within seconds for KiB inputs): a complexity claim, not decided by bounded symbolic execution", "step budget per path 300000 SSA instructions: exhaustion is replayed natively under a 5 s watchdog"},
+		Stubs:   []string{"parser.Scan summarised on token-slot sources from tables derived on this run from the real Scan (one-token locality validated on all lexeme pairs)"},
+	})
+	add(&PropSpec{
+		ID: "C15", Title: "statement splitting agrees with the lexer and loses nothing",
+		Quick:    append([]RunSpec{rs("H_C15", 0, 0), rs("H_C15", 1, 0), rs("H_C15", 2, 0), rs("H_C15", 3, 0), rs("H_C15", 5, 5), rs("H_C15", 5, 7)}, tokRuns("H_C15tok", 5, 0)...),
+		Thorough: append([]RunSpec{rs("H_C15", 0, 0), rs("H_C15", 1, 0), rs("H_C15", 2, 0), rs("H_C15", 3, 0), rs("H_C15", 4, 0), rs("H_C15", 7, 5), rs("H_C15", 6, 7)}, tokRuns("H_C15tok", 6, 0)...),
+		Covers:   []string{"has-semicolon-token", "semicolon-inside-token-or-comment", "parsed", "two-statements"},
+		Bounds: map[string]string{"quick": "all byte strings of length <= 3 (full byte range); length <= 5 over the alphabets {; ' \" ` / \\ newline a 1 = space} and {; ( ) [ ] | a 1 , ' space}; all token sequences of length <= 5 (statement count vs semicolon tokens)",
+			"thorough": "all byte strings of length <= 4; focused alphabets <= 7 / <= 6; token sequences <= 6"},
+		Outside: []string{"sources longer than the bound", "the command-line consumer (C16)"},
+		Stubs:   []string{"unicode.IsSpace -> models.IsSpace", "utf8 decode: engine model", "strings.{TrimLeft,ReplaceAll} -> models"},
+	})
+	add(&PropSpec{
 		ID: "C08", Title: "the parser accepts only what its tree represents",
 		Quick:    append(tokRuns("H_C08", 6, 0), seeds("H_C08seed", 1)...),
 		Thorough: append(append(tokRuns("H_C08", 7, 0), seeds("H_C08seed", 1)...), seeds("H_C08seed", 2)...),
@@ -67,10 +69,10 @@ func propSpecs() map[string]*PropSpec {
 	})
 	add(&PropSpec{
 		ID: "C10", Title: "source positions in tokens and syntax trees are exact",
-		Quick:    append(append(append(tokRuns("H_C10", 5, 0), seeds("H_C10seed", 1)...), tokRuns("H_C10err", 4, 0)...), seeds("H_C10errseed", 1)...),
-		Thorough: append(append(append(append(tokRuns("H_C10", 6, 0), seeds("H_C10seed", 1)...), seeds("H_C10seed", 2)...), tokRuns("H_C10err", 5, 0)...), seeds("H_C10errseed", 2)...),
+		Quick:    append(append(append(tokRuns("H_C10", 5, 0), seeds("H_C10seed", 1)...), tokRuns("H_C10err", 4, 0)...), append(seeds("H_C10errseed", 1), rs("H_C10tab", 0), rs("H_C10tab", 1), rs("H_C10tab", 2), rs("H_C10tab", 3), rs("H_C10tab", 4))...),
+		Thorough: append(append(append(append(tokRuns("H_C10", 6, 0), seeds("H_C10seed", 1)...), seeds("H_C10seed", 2)...), tokRuns("H_C10err", 5, 0)...), append(seeds("H_C10errseed", 2), rs("H_C10tab", 0), rs("H_C10tab", 1), rs("H_C10tab", 2), rs("H_C10tab", 3), rs("H_C10tab", 4))...),
 		Covers:   []string{"accepted", "rejected", "spans-checked", "partial-tree", "position-checked", "compile-error-message"},
-		Bounds: map[string]string{"quick": "success part: all accepted token sequences of length <= 5 over the full vocabulary and 12 seed programs with one arbitrary corruption; failure part: all rejected token sequences of length <= 4 and the rejected corruptions of the seeds: every span of the partial tree (fields and Span() of every node) and every line:column prefix of the parse and compile error messages",
+		Bounds: map[string]string{"quick": "success part: all accepted token sequences of length <= 5 over the full vocabulary and 12 seed programs with one arbitrary corruption; failure part: all rejected token sequences of length <= 4 and the rejected corruptions of the seeds: every span of the partial tree (fields and Span() of every node) and every line:column prefix of the parse and compile error messages; 5 failing programs with two gaps of 2 arbitrary bytes over {space, tab, newline} (tab stops)",
 			"thorough": "success <= 6, failure <= 5, seeds with one and two corruptions"},
 		Outside: []string{"multi-byte layout between tokens inside token slots (token spans themselves are C09's subject)", "error messages for byte-level garbage (their texts quote symbolic runes and are opaque to the engine)"},
 		Stubs:   []string{tokStub},
@@ -97,7 +99,7 @@ func propSpecs() map[string]*PropSpec {
 			}
 		}
 		for c := int64(0); c <= nCorrupt; c++ {
-			for i := int64(0); i < 20; i++ {
+			for i := int64(0); i < 25; i++ {
 				r = append(r, rs("H_C07seed", i, c))
 			}
 		}
@@ -111,7 +113,7 @@ func propSpecs() map[string]*PropSpec {
 		Quick:    c07(5, 3, 1, 8),
 		Thorough: c07(6, 5, 2, 20),
 		Covers:   []string{"in-grammar", "not-in-grammar", "layout-checked", "synonyms"},
-		Bounds: map[string]string{"quick": "all token sequences of length <= 5 (78 lexemes) the reference grammar derives; operator ladders with <= 3 arbitrary binary operators over 6 operand decorations (sign, call, index, parentheses, in-list); 20 seed programs plain and with one arbitrary corruption; layout: one arbitrary gap of 3 bytes over {space tab newline / NBSP} in 8 seed programs, with and without keyword synonyms",
+		Bounds: map[string]string{"quick": "all token sequences of length <= 5 (78 lexemes) the reference grammar derives; operator ladders with <= 3 arbitrary binary operators over 6 operand decorations (sign, call, index, parentheses, in-list); 25 seed programs plain and with one arbitrary corruption; layout: one arbitrary gap of 3 bytes over {space tab newline / NBSP} in 8 seed programs, with and without keyword synonyms",
 			"thorough": "length <= 6; ladders <= 5 operators; two corruptions; layout on all 20 seeds"},
 		Outside: []string{"programs longer/deeper than the bounds", "constructs deliberately not in the reference grammar (no claim either way): chained indexing a[1][2], a comma before summarize's by", "more than one non-canonical gap at a time"},
 		Stubs:   []string{tokStub, "layout family uses the real lexer (nothing stubbed)"},
@@ -119,11 +121,11 @@ func propSpecs() map[string]*PropSpec {
 	c05 := func(maxK, nCorrupt int64) []RunSpec {
 		r := tokRuns("H_C05", maxK, 5)
 		for c := int64(0); c <= nCorrupt; c++ {
-			for i := int64(0); i < 20; i++ {
+			for i := int64(0); i < 25; i++ {
 				r = append(r, rs("H_C05seed", i, c))
 			}
 		}
-		for i := int64(0); i < 6; i++ {
+		for i := int64(0); i < 8; i++ {
 			r = append(r, rs("H_C05names", i))
 		}
 		return r
@@ -133,7 +135,7 @@ func propSpecs() map[string]*PropSpec {
 		Quick:    c05(5, 1),
 		Thorough: c05(6, 2),
 		Covers:   []string{"compiled", "compile-error", "with-ctes"},
-		Bounds: map[string]string{"quick": "all compiling token sequences of length <= 5 over a 64-lexeme vocabulary (every operator word, generated subquery names as identifiers); 20 seed programs plain and with one arbitrary corruption; 6 name-collision shapes with arbitrary tokens in the name slots",
+		Bounds: map[string]string{"quick": "all compiling token sequences of length <= 5 over a 64-lexeme vocabulary (every operator word, generated subquery names as identifiers); 25 seed programs plain and with one arbitrary corruption; 6 name-collision shapes with arbitrary tokens in the name slots",
 			"thorough": "length <= 6; two corruptions"},
 		Outside: []string{"SQL validity beyond the statement grammar (types, unknown columns)", "pass-through function names that are SQL keywords (passed through by name by contract)", "two subqueries the user gave the same name with as"},
 		Stubs:   []string{tokStub},
@@ -166,12 +168,12 @@ func propSpecs() map[string]*PropSpec {
 	})
 	c01 := func(all bool) []RunSpec {
 		var r []RunSpec
-		for sh := int64(0); sh < 46; sh++ {
+		for sh := int64(0); sh < 49; sh++ {
 			r = append(r, rs("H_C01", sh, 0))
 		}
 		small := map[int64]bool{0: true, 4: true, 6: true, 9: true, 10: true, 13: true, 17: true, 20: true, 23: true, 26: true, 32: true, 36: true, 40: true}
 		for pos := int64(1); pos < 12; pos++ {
-			for sh := int64(0); sh < 46; sh++ {
+			for sh := int64(0); sh < 49; sh++ {
 				if all || small[sh] {
 					r = append(r, rs("H_C01", sh, pos))
 				}
@@ -184,8 +186,8 @@ func propSpecs() map[string]*PropSpec {
 		Quick:    c01(false),
 		Thorough: c01(true),
 		Covers:   []string{"compiled", "meaning-checked", "null-free-checked"},
-		Bounds: map[string]string{"quick": "46 expression shapes (ladders of <= 3 binary operators, every parenthesis placement, signs, indexing, in-lists, each built-in as operand and with operator arguments, pass-through calls of arity 0-3, qualified names, constants) with every binary operator slot arbitrary over the 15 operators, in the where position; 13 of the shapes in all 12 expression positions (project, extend named/unnamed, summarize aggregate and key, sort, take, top key and count, join on, let)",
-			"thorough": "all 46 shapes in all 12 positions"},
+		Bounds: map[string]string{"quick": "49 expression shapes (ladders of <= 3 binary operators, every parenthesis placement, signs, indexing, in-lists, each built-in as operand and with operator arguments, pass-through calls of arity 0-3, qualified names, constants) with every binary operator slot arbitrary over the 15 operators, in the where position; 13 of the shapes in all 12 expression positions (project, extend named/unnamed, summarize aggregate and key, sort, take, top key and count, join on, let)",
+			"thorough": "all 49 shapes in all 12 positions"},
 		Outside: []string{"expression trees deeper than the shapes", "the real ClickHouse evaluator: grouping is read with its operator priorities as transcribed in harness/h/sqlparse.go, operators are uninterpreted functions (so the verdict holds for every data type), coalesce / IS NULL / CASE are interpreted"},
 		Stubs:   []string{tokStub},
 		Assume:  []string{"ClickHouse operator priority table as transcribed (trusted)", "value algebra axioms: isNull(NULL), TRUE/FALSE not null, truth(TRUE), not truth(FALSE)"},
@@ -266,8 +268,8 @@ func propSpecs() map[string]*PropSpec {
 	})
 	add(&PropSpec{
 		ID: "C03", Title: "joins combine the pipeline so far with the right-hand pipeline",
-		Quick:    []RunSpec{big("H_C03", 1, 3, 3, 4), big("H_C03", 2, 1, 1, 1), big("H_C03two", 0, 1), big("H_C03two", 1, 1), big("H_C03two", 2, 1), big("H_C03two", 3, 1)},
-		Thorough: []RunSpec{big("H_C03", 1, 5, 5, 7), big("H_C03", 2, 2, 2, 2), big("H_C03two", 0, 2), big("H_C03two", 1, 2), big("H_C03two", 2, 1), big("H_C03two", 3, 1)},
+		Quick:    []RunSpec{big("H_C03", 1, 3, 3, 4), big("H_C03", 2, 1, 1, 1), big("H_C03two", 0, 1), big("H_C03two", 1, 1), big("H_C03two", 2, 1), big("H_C03two", 3, 1), big("H_C03two", 4, 1), big("H_C03two", 5, 1)},
+		Thorough: []RunSpec{big("H_C03", 1, 5, 5, 7), big("H_C03", 2, 2, 2, 2), big("H_C03two", 0, 2), big("H_C03two", 1, 2), big("H_C03two", 2, 1), big("H_C03two", 3, 1), big("H_C03two", 4, 2), big("H_C03two", 5, 1)},
 		Covers:   []string{"compiled", "results-compared", "non-empty-result", "join-checked"},
 		Bounds: map[string]string{"quick": "one join: 4 kinds (default, inner, innerunique, leftouter) x 6 condition forms (bare key, explicit equality on the key and on other columns, two conditions, non-equi, key plus one-sided filter) x 3 left prefixes x 3 right-hand pipelines x 4 following operators on all tables A(k,a), B(k,b) of 1 row, and the plain join on all 2-row tables; two joins in sequence and nested in the right-hand side, all 16 kind combinations, 1-row tables (+ C(k,c))",
 			"thorough": "5 prefixes x 5 right pipelines x 7 following operators on 1-row tables; 2x2x2 variants on 2-row tables; two-join shapes on 2-row tables"},
@@ -277,7 +279,7 @@ func propSpecs() map[string]*PropSpec {
 	})
 	seeds13 := func(n int64) []RunSpec {
 		var r []RunSpec
-		for i := int64(0); i < 20; i++ {
+		for i := int64(0); i < 25; i++ {
 			r = append(r, rs("H_C13seed", i, n))
 		}
 		return r
@@ -287,7 +289,7 @@ func propSpecs() map[string]*PropSpec {
 		Quick:    append(append([]RunSpec{rs("H_C13a", 1, 0), rs("H_C13a", 2, 0), rs("H_C13a", 3, 5)}, tokRuns("H_C13b", 5, 0)...), seeds13(1)...),
 		Thorough: append(append(append([]RunSpec{rs("H_C13a", 1, 0), rs("H_C13a", 2, 0), rs("H_C13a", 3, 0), rs("H_C13a", 5, 5)}, tokRuns("H_C13b", 6, 0)...), seeds13(1)...), seeds13(2)...),
 		Covers:   []string{"accepted", "rejected", "breaks-rule", "keeps-rules", "compiled", "compile-error"},
-		Bounds: map[string]string{"quick": "either/or: all byte strings of length <= 2, <= 3 focused, 5 parameter maps; exactly-when: all token sequences of length <= 5 over the full vocabulary and 20 seed programs (calls, joins, lets at depth) with one arbitrary corruption",
+		Bounds: map[string]string{"quick": "either/or: all byte strings of length <= 2, <= 3 focused, 5 parameter maps; exactly-when: all token sequences of length <= 5 over the full vocabulary and 25 seed programs (calls, joins, lets at depth) with one arbitrary corruption",
 			"thorough": "bytes <= 3 (<= 5 focused); token sequences <= 6; seeds with one and two corruptions"},
 		Outside: []string{"render property values (not an expression position of the rule list)", "parameter maps in the exactly-when part (covered by C06)", "programs beyond the bounds"},
 		Stubs:   []string{tokStub},
